@@ -682,6 +682,98 @@ theorem C10_materialise_partial (hraw : commentsRaw = true) (env : Env F) (stric
   · obtain ⟨sk', h⟩ := C01_read_record_partial env strict hcri hagg rg.1.ps hne hcov l sk (rg.1.t4 rest)
     exact ⟨_, h, rfl, rfl, rfl⟩
 
+/-! ### the hypotheses of the bridge theorem are satisfiable: a concrete file, every hypothesis discharged -/
+
+namespace Inst
+def aName : AttrD := { name := "name", ty := .one .string, optional := false }
+def aNxt : AttrD := { name := "nxt", ty := .one (.entity "ND"), optional := true }
+def eND : EntityD := { name := "ND", attrs := [aName, aNxt], ancestors := ["ND"] }
+def d : Dict := { entities := [eND], selects := [], complexSets := [] }
+def pStr (c : Nat) : Param Nat := { a := aName, v := .one (.atom (.str [39, c, 39])), tok := [39, c, 39], before := [], after := [] }
+def pNull : Param Nat := { a := aNxt, v := nullOf aNxt, tok := [36], before := [32], after := [] }
+def pRef : Param Nat := { a := aNxt, v := .one (.atom (.ref ((StepModel.digitsVal [49] 0 : Nat) : Int))), tok := [35, 49], before := [], after := [32] }
+def rec1 : Rec Nat := { ds := [49], s1 := [], s2 := [], n0 := 78, ns := [68], s3 := [], ps := [pStr 97, pNull], s4 := [] }
+def rec2 : Rec Nat := { ds := [50], s1 := [32], s2 := [], n0 := 78, ns := [68], s3 := [], ps := [pStr 98, pRef], s4 := [] }
+/-- `\n/* it's (x */ ` -/
+def gap1 : List Nat := [10] ++ 47 :: 42 :: ([32, 105, 116, 39, 115, 32, 40, 120, 32] ++ 42 :: 47 :: [32])
+def rs : List (Rec Nat × List Nat) := [(rec1, gap1), (rec2, [10])]
+
+theorem seps_gap1 : Seps gap1 := Seps.comment [10] _ [32] (by decide) (by decide) (Seps.blanks [32] (by decide))
+theorem seps_nil : Seps [] := Seps.blanks [] rfl
+theorem seps_sp : Seps [32] := Seps.blanks [32] (by decide)
+
+theorem lex1 : rec1.Lex := ⟨by decide, by decide, by decide, seps_nil, seps_nil, seps_nil, seps_nil, by decide, by decide, by decide⟩
+theorem lex2 : rec2.Lex := ⟨by decide, by decide, by decide, seps_sp, seps_nil, seps_nil, seps_nil, by decide, by decide, by decide⟩
+
+theorem sb (c : Nat) (h : isNonQ c = true) : StringBody [c] := StringBody.nonq h StringBody.nil
+
+theorem cov1 (env : Env Nat) : ∀ q ∈ rec1.ps, Covered env q := by
+  intro q hq
+  simp only [rec1, List.mem_cons, List.mem_nil_iff, or_false] at hq
+  rcases hq with rfl | rfl
+  · exact Covered.string aName rfl rfl rfl [97] (sb 97 (by decide)) [] [] seps_nil seps_nil
+  · exact Covered.dollar aNxt rfl rfl rfl [32] [] seps_sp seps_nil
+
+theorem cov2 (env : Env Nat) (hf : refLookup env.lookup "ND" 1 = .found) : ∀ q ∈ rec2.ps, Covered env q := by
+  intro q hq
+  simp only [rec2, List.mem_cons, List.mem_nil_iff, or_false] at hq
+  rcases hq with rfl | rfl
+  · exact Covered.string aName rfl rfl rfl [98] (sb 98 (by decide)) [] [] seps_nil seps_nil
+  · exact Covered.ref aNxt "ND" rfl rfl rfl [49] (by decide) (by decide) (by decide) hf [] [32] seps_nil seps_sp
+
+theorem found : refLookup (Mgr.lookup d ({ insts := rs.map (mkInst d) } : Mgr Nat)) "ND" 1 = .found := by decide
+def env0 (ops : FloatOps Nat) (lx : LexCfg) (cf : RWCfg) : Env Nat :=
+  { ops := ops, lex := lx, cfg := cf, dict := d, lookup := Mgr.lookup d ({ insts := rs.map (mkInst d) } : Mgr Nat) }
+
+theorem rc (ops : FloatOps Nat) (lx : LexCfg) (cf : RWCfg) : ∀ rg ∈ rs, RecCovered (env0 ops lx cf) rg := by
+  intro rg hrg
+  simp only [rs, List.mem_cons, List.mem_nil_iff, or_false] at hrg
+  rcases hrg with rfl | rfl
+  · exact ⟨lex1, seps_gap1, eND, (by decide : d.entity? rec1.name = some eND), rfl, rfl, cov1 _⟩
+  · exact ⟨lex2, Seps.blanks [10] (by decide), eND, (by decide : d.entity? rec2.name = some eND), rfl, rfl, cov2 _ found⟩
+
+theorem small_of (l : List Nat) (h : l.all (fun b => decide (b < 256)) = true) : Small l := by
+  intro b hb
+  have := List.all_eq_true.mp h b hb
+  simpa using this
+
+theorem lz : ∀ rg ∈ rs, LazySide rg := by
+  intro rg hrg
+  simp only [rs, List.mem_cons, List.mem_nil_iff, or_false] at hrg
+  rcases hrg with rfl | rfl
+  · refine ⟨by decide, by decide, by decide, by decide, by decide, ?_, small_of _ (by decide), small_of _ (by decide)⟩
+    intro p hp
+    simp only [rec1, List.mem_cons, List.mem_nil_iff, or_false] at hp
+    rcases hp with rfl | rfl <;> exact small_of _ (by decide)
+  · refine ⟨by decide, by decide, by decide, by decide, by decide, ?_, small_of _ (by decide), small_of _ (by decide)⟩
+    intro p hp
+    simp only [rec2, List.mem_cons, List.mem_nil_iff, or_false] at hp
+    rcases hp with rfl | rfl <;> exact small_of _ (by decide)
+
+/-- the hypotheses of `C10_index_equals_eager_partial` are satisfiable: the file
+    `#1=ND('a', $);\n/* it's (x */ #2 =ND('b',#1 );\nENDSEC; END-ISO-10303-21;` over `ENTITY nd; name : STRING; nxt : OPTIONAL nd;` — a comment
+    with an apostrophe and a parenthesis before `#2`, a reference back — for every floating-point interpretation, either strictness and
+    every reader configuration with the comment repairs -/
+theorem _root_.StepModel.Lazy.C10_index_equals_eager_instance_witness (ops : FloatOps Nat) (lex : LexCfg) (cfg : RWCfg) (strict : Bool)
+    (hskip : cfg.skipInstanceSkipsComments = true) (hcri : lex.criSkipsComments = true) (hagg : cfg.aggrSkipsComments = true) :
+    ∃ res es,
+      readDataSection ops lex cfg d strict false ([] ++ renderRecs rs (RLemmas.endsec [] ([32] ++ (endIso ++ 59 :: [])))) = .ok res ∧
+      scan (cs ([] ++ renderRecs rs (RLemmas.endsec [] ([32] ++ (endIso ++ 59 :: []))))) = .ok (es, true) ∧
+      es.map (fun e => ((e.id : Int), String.ofList e.kw)) = [(1, "ND"), (2, "ND")] ∧
+      es.map (·.refs) = [[], [1]] ∧ res.mgr.insts.map instRefs = [[], [1]] := by
+  obtain ⟨res, es, h1, h2, h3, h4, h5, _⟩ := C10_index_equals_eager_partial ops lex cfg d strict hskip hcri hagg rs [] [] [32] []
+    seps_nil rfl seps_sp (by decide) (rc ops lex cfg) C10_source_comments_raw lz (small_of _ rfl) (small_of _ rfl)
+  refine ⟨res, es, h1, h2, ?_, ?_, ?_⟩
+  · obtain ⟨res', hr', hi', _⟩ := C01_read_file_partial ops lex cfg d strict hskip hcri hagg rs [] [] [32] []
+      seps_nil rfl seps_sp (by decide) (rc ops lex cfg)
+    rw [h1] at hr'
+    cases hr'
+    rw [h3, hi']
+    decide
+  · rw [h4]; rfl
+  · rw [← h5, h4]; rfl
+end Inst
+
 /-- the ids the eager model creates from a data section (dictionary `exDict` of the C01 owner: one entity `A(i : INTEGER, l : LIST OF
     INTEGER)`), with the count `ReadData1` reports -/
 def eagerIds (data : String) : Option (List Int × Nat) :=
